@@ -48,6 +48,12 @@ def parseNChecks : Nat → List String → Option (List (Check NumChecks.NPred U
     let d ← Gozod.Drv.C16.parseNum k v
     let (cs, r) ← parseNChecks n r
     pure (.pred (.mult d) false none :: cs, r)
+  | n + 1, "finite" :: r => do
+    let (cs, r) ← parseNChecks n r
+    pure (.pred .finite false none :: cs, r)
+  | n + 1, "safe" :: r => do
+    let (cs, r) ← parseNChecks n r
+    pure (.pred .safe false none :: cs, r)
   | _, _ => none
 
 def specAll {P O T V} (env : Env P O T V) (cs : List (Check P O)) (v : V) : Bool :=
